@@ -140,62 +140,28 @@ def loader_rules(ctx, rule):
     lf = prog.body_of(LOAD)
     lr = A.Resolver(lf)
     lc = A.Conds(lf, lr)
-    flags = []
-    for l in range(len(lf.locals)):
-        if lf.local_ty(l) != "bool" or not lf.locals[l]["user"]:
-            continue
-        ds = [d for d in lf.defs().get(l, []) if d[2] == "assign"]
-        if len(ds) < 3 or len(ds) != len(lf.defs().get(l, [])):
-            continue
-        vals = [A.peel(lr._def_expr(d, 0)) for d in ds]
-        if all(v[0] == "const" for v in vals):
-            flags.append((l, ds, vals))
-    ctx.floor(rule, "failure flag candidates", len(flags), 1, exact=True)
+    # all-or-nothing, stated without reference to how failure is remembered (one flag, one flag per helper, early
+    # return, ..): once a load step has failed, no path leads to `Some(zones)`
     rets = A.returns(lf)
-    for l, ds, vals in flags:
-        init = [d for d, v in zip(ds, vals) if v[2] is False or v[2] == 0]
-        sets = [d for d, v in zip(ds, vals) if v[2] is True or v[2] == 1]
-        ctx.check(len(init) == 1 and all(lf.dominates(init[0][0], d[0]) for d in sets), rule, "loader:flag-never-cleared",
-                  "flag initialised false once, only ever set true afterwards", "the failure flag is reset to false somewhere", lf.loc(init[0][0]) if init else lf.loc())
-        set_blocks = [d[0] for d in sets]
-        # Err arms of every fallible load step
-        arms = 0
-        for b in lf.live_blocks():
-            t = lf.term(b)
-            if t["k"] != "switch":
-                continue
-            for s in lf.succs(b):
-                for fc in lc.edge_facts(b, s):
-                    if fc[0] == "is" and fc[1] == "Err" and any(x[0] == "call" and x[1].startswith("resolved::fs::") for x in A.walk(fc[2])):
-                        arms += 1
-                        esc = [rb for rb in rets if rb in lf.reachable(s, removed_blocks=set_blocks)]
-                        what = A.calls_in(fc[2], lambda n: n.startswith("resolved::fs::"))[0][1]
-                        inner = "(Ok(Err))" if "<Ok>" in (A.path_str(fc[2]) or "") or "as Ok" in A.show(fc[2]) else "(Err)"
-                        ctx.check(not esc, rule, "loader:err-arm:%s%s#%d" % (A.short(what), inner, arms),
-                                  "the Err arm cannot reach the return without setting the flag",
-                                  "an error of %s does not set the failure flag" % A.short(what), lf.loc(s))
-        ctx.floor(rule, "Err arms of load steps", arms, 6)
-        # the result
-        somes = [(b, i) for b, i, st in A.aggregates(lf, "std::option::Option", "Some") if "Zones" in lf.local_ty(st["dst"]["l"])]
-        ctx.floor(rule, "Some(zones) results", len(somes), 1, exact=True)
-        for b, i in somes:
-            edges = []
-            for sb in lf.live_blocks():
-                t = lf.term(sb)
-                if t["k"] == "switch" and A.op_place(t["discr"]) is not None:
-                    src = lr.operand(t["discr"], (sb, "term"))
-                    # switch directly on the flag (copy of local l)
-                    pl = A.op_place(t["discr"])
-                    base = pl["l"]
-                    sd = lf.single_def(base)
-                    is_flag = base == l or (sd is not None and sd[2] == "assign" and lf.blocks[sd[0]]["stmts"][sd[1]]["rv"].get("op", {}).get("copy") == {"l": l})
-                    if is_flag:
-                        for v, tg in t["targets"]:
-                            if v == 0:
-                                edges.append((sb, tg))
-            ok = bool(edges) and b not in lf.reachable(0, removed_edges=edges)
-            ctx.check(ok, rule, "loader:some-only-if-no-error", "Some(zones) only behind `flag == false`",
-                      "Some(zones) is reachable with the failure flag set", lf.loc(b, i))
+    somes = [(b, i) for b, i, st in A.aggregates(lf, "std::option::Option", "Some") if "Zones" in lf.local_ty(st["dst"]["l"])]
+    ctx.floor(rule, "Some(zones) results", len(somes), 1)
+    arms = 0
+    for b in lf.live_blocks():
+        t = lf.term(b)
+        if t["k"] != "switch":
+            continue
+        for s in lf.succs(b):
+            for fc in lc.edge_facts(b, s):
+                if fc[0] == "is" and fc[1] == "Err" and any(x[0] == "call" and x[1].startswith("resolved::fs::") for x in A.walk(fc[2])):
+                    arms += 1
+                    reach = A.reachable_tagged(lf, s)
+                    esc = [sb for sb, _ in somes if sb in reach]
+                    what = A.calls_in(fc[2], lambda n: n.startswith("resolved::fs::"))[0][1]
+                    inner = "(Ok(Err))" if "<Ok>" in (A.path_str(fc[2]) or "") or "as Ok" in A.show(fc[2]) else "(Err)"
+                    ctx.check(not esc, rule, "loader:err-arm:%s%s#%d" % (A.short(what), inner, arms),
+                              "after this error no path leads to Some(zones)",
+                              "an error of %s does not set the failure flag" % A.short(what), lf.loc(s))
+    ctx.floor(rule, "Err arms of load steps", arms, 4)
     # the loader cannot touch the lock
     fam = prog.family(LOAD)
     touches = [f.key for f in fam for b, t in f.calls() if "RwLock" in (t.get("inst") or "")]
